@@ -187,7 +187,7 @@ def run(ctx):
                         signature="C07:%s:%s" % (where, what))
     include_arg_cases(ctx, base)
     # the validator: given a loadable schema, status 0 iff all files valid, else 1 with one message per invalid file
-    _validator(ctx, base[:60] if not ctx.thorough() else base[:600])
+    _validator(ctx, base)
     if cases:
         ctx.sample({"lines": cases[0].lines, "overrides": cases[0].overrides, "impl": cases[0].out[:3]})
         ctx.sample({"lines": cases[-1].lines, "files": cases[-1].files, "impl": cases[-1].out[:3]})
@@ -198,45 +198,69 @@ def run(ctx):
 
 
 def _validator(ctx, cases):
+    """validator.main in-process: per schema, good and bad files in several orders (a bad file first, last, in the
+    middle, only good, only bad); status must be 0 iff every file is valid, and exactly one message per invalid file"""
     import contextlib
     from ZConfig import validator
+
+    class CountingStream(io.StringIO):
+        def __init__(self):
+            super().__init__()
+            self.messages = 0
+
+        def write(self, t):
+            if t != "\n":
+                self.messages += 1
+            return super().write(t)
+
     root = tempfile.mkdtemp(prefix="zcv-val-", dir="/dev/shm" if os.path.isdir("/dev/shm") else None)
     try:
         groups = {}
         for c in cases:
             groups.setdefault(id(c.sd), []).append(c)
-        for gi, (_, cs) in enumerate(groups.items()):
+        for gi, (_, cs) in enumerate(list(groups.items())[: (60 if ctx.thorough() else 12)]):
             d = os.path.join(root, "g%d" % gi)
             os.makedirs(d)
             sp = os.path.join(d, "schema.xml")
             open(sp, "w").write(F.render_xml(cs[0].sd))
-            paths, expected_bad = [], 0
-            for i, c in enumerate(cs[:5]):
+            good, bad = [], []
+            for i, c in enumerate(cs[:24]):
                 p = os.path.join(d, "f%d.conf" % i)
                 open(p, "w", encoding="utf-8", newline="").write("".join(l + "\n" for l in c.lines))
                 out, _, _ = cfgrun.real_load_path(F.load_real(c.sd), p)
-                if out[0] not in ("ok", "cfg"):
+                if out[0] == "ok":
+                    good.append(p)
+                elif out[0] == "cfg":
+                    bad.append(p)
+            plans = []
+            if good:
+                plans.append(good[:2])
+            if bad:
+                plans.append(bad[:1])
+            if good and bad:
+                plans += [[bad[0], good[0]], [good[0], bad[0]], [bad[0], bad[-1], good[0]], [good[0], bad[0], good[-1]]]
+            for paths in plans:
+                expected_bad = sum(1 for p in paths if p in bad)
+                buf = CountingStream()
+                try:
+                    with contextlib.redirect_stderr(buf), contextlib.redirect_stdout(io.StringIO()):
+                        rc = validator.main(["--schema", sp] + paths)
+                except SystemExit as e:
+                    rc = e.code
+                except Exception as e:
+                    ctx.violate("validator.main raised %s" % type(e).__name__, {"schema_xml": F.render_xml(cs[0].sd), "files": paths},
+                                signature="C07:validator:" + type(e).__name__)
                     continue
-                paths.append(p)
-                expected_bad += out[0] == "cfg"
-            if not paths:
-                continue
-            buf = io.StringIO()
-            # the validator needs the harness datatypes importable: they are (sys.path has harness/dtpkg)
-            try:
-                with contextlib.redirect_stderr(buf), contextlib.redirect_stdout(buf):
-                    rc = validator.main(["--schema", sp] + paths)
-            except SystemExit as e:
-                rc = e.code
-            except Exception as e:
-                ctx.violate("validator.main raised %s" % type(e).__name__, {"schema_xml": F.render_xml(cs[0].sd), "files": paths},
-                            signature="C07:validator:" + type(e).__name__)
-                continue
-            ctx.evaluations += 1
-            ctx.count("validator:rc=%s" % rc)
-            if rc != (1 if expected_bad else 0):
-                ctx.violate("validator status %r with %d invalid files" % (rc, expected_bad),
-                            {"schema_xml": F.render_xml(cs[0].sd), "texts": [c.lines for c in cs[:5]]},
-                            signature="C07:validator:status")
+                ctx.evaluations += 1
+                ctx.count("validator:rc=%s" % rc)
+                texts = [open(p, encoding="utf-8").read() for p in paths]
+                if rc != (1 if expected_bad else 0):
+                    ctx.violate("validator status %r for files of which %d are invalid (order: %s)" % (
+                        rc, expected_bad, ["bad" if p in bad else "good" for p in paths]),
+                        {"schema_xml": F.render_xml(cs[0].sd), "texts": texts}, signature="C07:validator:status")
+                elif buf.messages != expected_bad:
+                    ctx.violate("validator printed %d messages for %d invalid files" % (buf.messages, expected_bad),
+                                {"schema_xml": F.render_xml(cs[0].sd), "texts": texts, "stderr": buf.getvalue()[:500]},
+                                signature="C07:validator:messages")
     finally:
         shutil.rmtree(root, ignore_errors=True)
